@@ -16,12 +16,13 @@ from checks import _valgen as vg
 
 MANIFEST = dict(
     technique="Coq: induction on schema trees (iter_errors empty iff Draft-4 conforms), path lemmas for create_message, idempotence of lower-casing, reflection over the generated schema files; extracted-model correspondence with fault injection; independent Draft-4 oracle in Python",
-    text=("Coq theorems (Props/C07.v, 12, all closed) over Model/Schema.v (jsonschema Draft4Validator.iter_errors on the keyword census, with error paths and validator keywords, over the $ref-expanded tree) and Model/Validator.v: "
+    text=("Coq theorems (Props/C07.v, 14, all closed) over Model/Schema.v (jsonschema Draft4Validator.iter_errors on the keyword census, with error paths and validator keywords, over the $ref-expanded tree) and Model/Validator.v: "
           "C07_iter_errors_complete [U] (for every well-formed schema tree and every instance: no errors iff Spec/Draft4.conforms; induction on the schema, all 19 keywords) and C07_iter_errors_complete_refs (with $ref: the proxy view equals the specification's inlining); "
           "C07_shipped_schemas_wf [F]; C07_validate_verdict [U] (validate returns [] iff the lower-cased JSON form conforms); "
           "C07_messages_cover [U] (one message per error, in order, naming the last key of its path or the __type__ of the object it points to, any depth) and C07_errors_are_located [U] (violating keyword values / list elements / unknown / missing keywords are reported at the right place); "
-          "C07_validate_never_raises_refuted [R] (MAP SIZE 10.5 20 END: error path ['size', 0] -> TypeError) with C07_validate_never_raises_guarded_partial [U] (no raise when every error is about a dictionary - no path ending in a list index below a non-object - that names itself and carries no position record; "
-          "that loads/create dictionaries meet this guard, and the case with positions, are covered by O-val and the hunter only); "
+          "C07_validate_never_raises_partial / C07_validate_list_never_raises_partial [U] (validate returns for every root dictionary of the loads/create shape - lower-case unique keys, string __type__ on the root and on dict members of lists, no position records - "
+          "via C07_error_paths_valid [U] (every error path leads to a node of the instance) and the correspondence between instance paths and the original dictionary; that loads/create produce that shape is checked by the hunter on every document, "
+          "dictionaries with __position__ are covered by C07_validate_never_raises_guarded [U] and O-val; since commit 4abf0be the former counterexample MAP SIZE 10.5 20 is an Example returning a message naming SIZE); "
           "C07_convert_lowercase_idempotent and C07_verdict_case_insensitive [U]; C07_hidden_keys_admitted [F]+[U]; C07_list_is_pointwise [U]. "
           "Tie to validator.py/jsonschema/jsonref/re: extracted model vs real validate (ordered messages: path, validator keyword, mappyfile message, line/column, exception class) on generated valid documents of every block type, "
           "single and double faults of six kinds at depth 0-5 and list indices, corpus files with and without positions, lists of dictionaries; every schema regex vs re.search."),
@@ -155,6 +156,30 @@ def positions_variant(d, rng):
         return None
 
 
+def root_ok(d):
+    """the hypothesis of C07_validate_never_raises_partial (coq/Proofs/C07Paths.v root_ok), re-stated in
+    Python: keys stored lower-case, no __position__ records, a string __type__ on the root and on every
+    dictionary that is a member of a list."""
+    def typed(x):
+        return not isinstance(x, dict) or isinstance(x.get("__type__"), str)
+
+    def shaped(x):
+        if isinstance(x, dict):
+            return all(isinstance(k, str) and k.lower() == k for k in x) and "__position__" not in x and all(shaped(v) for v in x.values())
+        if isinstance(x, (list, tuple)):
+            return all(shaped(v) and typed(v) for v in x)
+        return True
+    return isinstance(d, dict) and typed(d) and shaped(d)
+
+
+def has_positions(x):
+    if isinstance(x, dict):
+        return "__position__" in x or any(has_positions(v) for v in x.values())
+    if isinstance(x, (list, tuple)):
+        return any(has_positions(v) for v in x)
+    return False
+
+
 def classify_raise(val, d, exc):
     """fingerprint of a raising validate: the known list-valued-keyword shape or a new one."""
     if exc == "TypeError" and val.rec:
@@ -188,11 +213,15 @@ def run(ctx):
     # fixed probes (the known defect and its neighbours)
     for t in ("MAP SIZE 10.5 20 END", "MAP LEGEND KEYSIZE 1 10 END END", "MAP EXTENT 1 2 3 END", "MAP IMAGECOLOR 1 2 END",
               "MAP LAYER TYPE POINT FEATURE POINTS 1 2 3 END END END END", "MAP WEB FOO 1 END END", "MAP LAYER NAME 'x' END LAYER TYPE bad END END",
-              "MAP SYMBOL TYPE ELLIPSE POINTS 1 1 END FILLED TRUE END END", "MAP NAME 'ok' END"):
-        try:
-            docs.append(("probe", mappyfile.loads(t, include_position=rng.random() < 0.5), "map", []))
-        except Exception:  # noqa
-            pass
+              "MAP SYMBOL TYPE ELLIPSE POINTS 1 1 END FILLED TRUE END END", "MAP NAME 'ok' END",
+              "MAP\n WEB\n  FOO 1\n END\n LEGEND\n  KEYSIZE 1 10\n  BAR 2\n END\n SCALEBAR\n  UNITS bad\n  LABEL\n   NOSUCH 1\n  END\n END\nEND",
+              "MAP\n LAYER\n  TYPE POINT\n  CLASS\n   LEADER\n    GRIDSTEP 'x'\n    NOSUCH 1\n   END\n   STYLE\n    COLOR 1 2 300\n    OFFSET 'a' 2\n   END\n  END\n  FEATURE\n   POINTS 1 2 'x' 4 END\n  END\n END\nEND",
+              "MAP\n QUERYMAP\n  SIZE 1 'b'\n  NOSUCH 1\n END\n REFERENCE\n  EXTENT 1 2 3\n  NOSUCH 2\n END\nEND"):
+        for pos in (False, True):
+            try:
+                docs.append(("probe", mappyfile.loads(t, include_position=pos), "map", []))
+            except Exception:  # noqa
+                pass
     n_valid = ctx.budget(50, 800)
     for i in range(n_valid):
         try:
@@ -277,9 +306,18 @@ def run(ctx):
     # ---------------------------------------------------------------- hunters
     hist = {}
     n_raise = 0
+    n_rootok = n_plain = 0
     for (lab, d, nm, fs), (r, rec) in zip(docs, real):
         kind = lab.split(":")[0]
         hist[kind] = hist.get(kind, 0) + 1
+        if not has_positions(d):
+            n_plain += 1
+            if root_ok(d):
+                n_rootok += 1
+            elif kind in ("probe", "file", "create", "corpus-regression"):
+                # a loads / create product outside the hypothesis of the never-raises theorem
+                ctx.violation("shape:loads-output-not-root_ok", "a %s dictionary (no positions) violates the shape assumed by C07_validate_never_raises_partial" % lab,
+                              {"kind": "doc", "doc": json.loads(json.dumps(d)), "schema_name": nm}, no_input=True)
         ctx.note_case(json.dumps(d, default=str), nontrivial=bool(fs) or kind.startswith("file"))
         replay = {"kind": "doc", "doc": json.loads(json.dumps(d)), "schema_name": nm}
         want = spec.conforms(raw[nm + ".json"], vg.lower_json(d))
@@ -338,6 +376,8 @@ def run(ctx):
     ctx.count("list_cases", n_list)
     ctx.count("documents", len(docs))
     ctx.count("documents_raising", n_raise)
+    ctx.count("documents_without_positions", n_plain)
+    ctx.count("documents_meeting_root_ok_hypothesis", n_rootok)
     ctx.coverage["document_kinds"] = hist
     fk = {}
     for lab, d, nm, fs in docs:
